@@ -3,6 +3,7 @@ import IastModel.MapChecks
 import IastModel.Lemmas.NsCount
 import IastModel.Lemmas.Targets
 import IastModel.Lemmas.Temps
+import IastModel.Js.FindEntry
 /-
   Line-protocol driver.  One JSON record per stdin line (written by the Rust harness, which ran the
   real rewriter on the same request), one JSON verdict per stdout line:
@@ -338,21 +339,33 @@ def processChain (rec : J) : Verdict := Id.run do
       | none => pure ()
     return v
 
+/-- the model of `SourceMap.findEntry` on the mappings as `_parseMappingPayload` leaves them (stably
+    sorted by generated position) -/
+def feLookup (toks : List RTok) (line col : Nat) : Option RTok :=
+  let sorted := toks.mergeSort fun a b => !FindEntry.posLt (b.genLine, b.genCol) (a.genLine, a.genCol)
+  (FindEntry.findEntryIdx (sorted.map fun t => (t.genLine, t.genCol)) (line, col)).bind (sorted[·]?)
+
 /-- C11: model of `findEntry` + `getPathAndLine` (1-based in, 1-based out) on a raw map -/
 def processJs (rec : J) : J :=
   match decodeMapJson (rec.getD "map").strD with
   | .error e => .obj [("id", rec.getD "id"), ("error", jstr e)]
   | .ok dm =>
+    let sorted := dm.tokens.mergeSort fun a b => !FindEntry.posLt (b.genLine, b.genCol) (a.genLine, a.genCol)
     let answers := (rec.getD "positions").arrD.map fun p =>
       match p with
       | .arr [l, c] =>
         if c.natD == 0 then J.null   -- column 0 is below the first column: class of its own
         else
-          match rtokLookup dm.tokens (l.natD - 1) (c.natD - 1) with
+          match feLookup dm.tokens (l.natD - 1) (c.natD - 1) with
           | some { src := some (s, ol, oc), .. } => .arr [jstr s, jnat ol, jnat oc]
           | _ => J.null
       | _ => J.null
-    .obj [("id", rec.getD "id"), ("model", .arr answers)]
+    -- the binary search against the specification it is proved equal to (`findEntry_eq_lookup`)
+    let differs := (rec.getD "positions").arrD.any fun p =>
+      match p with
+      | .arr [l, c] => c.natD != 0 && !(feLookup dm.tokens (l.natD - 1) (c.natD - 1) == rtokLookup sorted (l.natD - 1) (c.natD - 1))
+      | _ => false
+    .obj [("id", rec.getD "id"), ("model", .arr answers), ("spec_differs", .bool differs)]
 
 def verdictJson (id : J) (v : Verdict) : J :=
   .obj [("id", id),
